@@ -342,3 +342,72 @@ func VerifC15Profiles() {
 		vAssert(m["k"] == last, "a property of an active profile overrides the project's, a later profile an earlier one")
 	}
 }
+
+// VerifC15JDKProfile: activation by a plain <jdk> value. Maven activates such a profile when the running JDK's
+// version starts with the value; taken component-wise (so that the digit-prefix quirk "1" vs "11" is left out):
+// a value that is a dotted prefix of the JDK version (also the whole of it) activates, a value that differs
+// from the JDK version in its first or second component does not. The JDK version has three to five components
+// (11.0.8, 11.0.8.1, 1.8.0_292 spelt 1.8.0.292); the digits are symbolic.
+func VerifC15JDKProfile() {
+	n := vParam("n")   // components of the running JDK version
+	k := vParam("k")   // components of the profile's value
+	dif := vParam("d") // 0: the value is a prefix; 1/2: it differs in that component (1-based)
+	comp := func(tag string) string {
+		b := vByte(tag)
+		vAssume(vAnd('0' <= b, b <= '9'))
+		return string([]byte{b})
+	}
+	jdk, val := "", ""
+	for i := 0; i < n; i++ {
+		c := comp("j" + c15N[i%4] + c15N[i/4])
+		if i == 0 {
+			vAssume(c != "0")
+		}
+		if i == 1 && k == 1 && dif == 0 && vParam("kf_c15_jdk_major_only") == 1 {
+			// open finding: a one-component value against a JDK version whose second component is not 0
+			vAssume(c == "0")
+		}
+		if i > 0 {
+			jdk += "."
+		}
+		jdk += c
+		if i < k {
+			if i > 0 {
+				val += "."
+			}
+			if dif == i+1 {
+				o := comp("o" + c15N[i%4])
+				vAssume(o != c)
+				if i == 0 {
+					vAssume(o != "0")
+				}
+				val += o
+			} else {
+				val += c
+			}
+		}
+	}
+	vObserveStr("jdk", jdk)
+	vObserveStr("value", val)
+	pr := Profile{ID: "j"}
+	pr.Activation.JDK = String(val)
+	pr.Dependencies = []Dependency{{GroupID: "g", ArtifactID: "j", Version: "1"}}
+	def := Profile{ID: "d"}
+	def.Activation.ActiveByDefault = "true"
+	def.Dependencies = []Dependency{{GroupID: "g", ArtifactID: "d", Version: "1"}}
+	p := Project{Profiles: []Profile{pr, def}}
+	err := p.MergeProfiles(jdk, ActivationOS{})
+	vAssert(err == nil, "merging profiles with a well-formed jdk value succeeds")
+	if err != nil || len(p.Dependencies) != 1 {
+		vAssert(len(p.Dependencies) == 1, "exactly one of the jdk profile and the default profile is merged")
+		return
+	}
+	got := string(p.Dependencies[0].ArtifactID)
+	if dif == 0 {
+		vCover(true, "a jdk value that is a prefix of the JDK version")
+		vAssert(got == "j", "a profile whose jdk value is a dotted prefix of the JDK version is active")
+	} else {
+		vCover(true, "a jdk value that differs in its major or minor component")
+		vAssert(got == "d", "a profile whose jdk value differs from the JDK version in its first or second component is not active")
+	}
+}
